@@ -400,10 +400,15 @@ def walk_decision(f, start, atom_of, assignment, stop, on_block=None, max_steps=
             if s["s"] == "assign" and not s["lhs"]["p"] and s["lhs"]["l"] in flags and s["rhs"]["rv"] == "use":
                 fval[s["lhs"]["l"]] = op_const(s["rhs"]["op"])
         t = f.term(bb)
-        if t["t"] == "switch" and op_local(t["discr"]) in flags and op_local(t["discr"]) in fval:
-            v = fval[op_local(t["discr"])]
-            tg = dict((bool(x), b) for x, b in t["targets"])
-            bb = tg.get(v, t["otherwise"])
+        if t["t"] == "switch" and op_local(t["discr"]) in flags:
+            if op_local(t["discr"]) in fval:
+                v = fval[op_local(t["discr"])]
+                tg = dict((bool(x), b) for x, b in t["targets"])
+                bb = tg.get(v, t["otherwise"])
+            else:
+                # a drop flag whose value depends on the path before `start`: both sides only
+                # differ in which destructor runs; follow the first feasible edge
+                bb = f.succs(bb, False)[0]
             continue
         a = atom_of(bb)
         if a is not None:
